@@ -178,6 +178,18 @@ def renderFmt (fmt : List Piece) (vals : List Val) : Option (List Char) := (chun
 /-- the test in `Atom.__str__`: anisotropic iff Σ|u[2:]| > 0.00001 -/
 def isAniso (us : List Rat) : Bool := decide (((us.drop 2).map absR).sum > 1 / 100000)
 
+/-- `Atom._get_atom_coordinates`: a coordinate beyond ±4 carries a free-variable code 10m+p and is split into the
+    free-variable number (kept per slot in `_coord_fvars`) and the value (exact arithmetic: `round(value, 8)` is the
+    identity on values with at most eight decimals) -/
+def coordSplit (c : Rat) : Int × Rat :=
+  if absR c > 4 then
+    let m := ((c + 5) / 10).floor
+    (m, c - 10 * m)
+  else (0, c)
+
+/-- `Atom._coordinates_as_in_file` (repair C01_6): the coordinate as it stands in the file, slot by slot -/
+def coordJoin (mp : Int × Rat) : Rat := mp.2 + 10 * mp.1
+
 structure AtomV where
   name : Tok
   sfac : Nat
